@@ -452,6 +452,10 @@ def run_B(fams, rng, tier, name='b', fam_args=None):
         for p in B_FAMILIES[f](rng, tier, **((fam_args or {}).get(f, {}))):
             p.family = f
             progs.append(p)
+    return run_B_progs(progs, name)
+
+
+def run_B_progs(progs, name='b', all_strings=False):
     cases = []
     for i, p in enumerate(progs):
         mode = 'async' if p.kind[0] == '1' else ('sync-unnamed' if getattr(p, 'unnamed', False) else 'sync')
@@ -502,7 +506,7 @@ def run_B(fams, rng, tier, name='b', fam_args=None):
         d['mm_code'] = (v // 1000000000) % 1000000000
         d['a_code'] = v // (1000000000 ** 2)
     # phase 2: the strings (Spec's and the model's result+trace) for the cases that differ, in one sharded run
-    differing = [d for d in idx if d['rt_code'] or d['a_code'] or d['mm_code']][:MAX_EXAMINED]
+    differing = [d for d in idx if all_strings or d['rt_code'] or d['a_code'] or d['mm_code']][:MAX_EXAMINED if not all_strings else 200]
     sitems = []
     for d in differing:
         cfg = jv.cconfig(d['kind'])
@@ -799,6 +803,18 @@ def run_property(pid, P, rng, tier, seed, escalate=False, only_B=False):
                                            'expected': ' '.join(exp['model'] or []), 'observed': ' '.join(d['observed'])})
                 why = PROJ[P['proj']](d, exp)
                 if why:
+                    if not rep.get('_shrunk') and d['family'] not in ('pairs',):
+                        rep['_shrunk'] = True
+                        try:
+                            import shrink
+                            small = shrink.shrink(d, PROJ[P['proj']], lambda ps, nm: run_B_progs(ps, nm, all_strings=True), name='shr_' + pid.lower())
+                            if small is not d:
+                                e2 = small['exp']
+                                rep['witnesses'].append({'macro': small['macro'], 'dsl': small['text'], 'why': small['why'], 'shrunk_from': d['text'][:400],
+                                                         'expected_by_spec': ' '.join(e2['spec']), 'observed': ' '.join(small['observed']),
+                                                         'operand_table': small['prog'].table.coq()[:2000]})
+                        except Exception as ex:
+                            rep.setdefault('notes', []).append('shrinking failed: %s' % ex)
                     rep['witnesses'].append({'macro': d['macro'], 'dsl': d['text'], 'why': why,
                                              'expected_by_spec': ' '.join(exp['spec']), 'observed': ' '.join(d['observed']),
                                              'operand_table': d['prog'].table.coq()[:2000]})
